@@ -13,6 +13,10 @@ pub struct Entry {
     pub witness: String,
     pub class: String,
     pub features: Vec<String>,
+    /// signature of violations that are this finding (C13): comma-separated conditions
+    /// fired:<call>:<kind> (every non-benign fault that fired in the step is this one),
+    /// outcome:<step outcome>, class:<class prefix>
+    pub sig: String,
     pub what: String,
 }
 
@@ -45,6 +49,7 @@ pub fn load(verif_dir: &str) -> Vec<Entry> {
                     "id" => e.id = v.to_string(),
                     "witness" => e.witness = v.to_string(),
                     "class" => e.class = v.to_string(),
+                    "sig" => e.sig = v.to_string(),
                     "features" => e.features = v.split(',').filter(|s| !s.is_empty() && *s != "-").map(|s| s.to_string()).collect(),
                     _ => free.push(tok.to_string()),
                 }
@@ -65,4 +70,27 @@ pub fn fenced(entries: &[Entry], property: &str) -> BTreeSet<String> {
         .filter(|e| e.open && e.property == property)
         .flat_map(|e| e.features.iter().cloned())
         .collect()
+}
+
+impl Entry {
+    pub fn sig_matches(&self, class: &str, fired: &[String], outcome: &str) -> bool {
+        if self.sig.is_empty() {
+            return false;
+        }
+        for cond in self.sig.split(',') {
+            let ok = if let Some(f) = cond.strip_prefix("fired:") {
+                !fired.is_empty() && fired.iter().all(|x| x == f)
+            } else if let Some(o) = cond.strip_prefix("outcome:") {
+                outcome == o
+            } else if let Some(c) = cond.strip_prefix("class:") {
+                c.split('|').any(|p| class.starts_with(p))
+            } else {
+                false
+            };
+            if !ok {
+                return false;
+            }
+        }
+        true
+    }
 }
